@@ -143,7 +143,11 @@ func (m *Model) PullWasteRecords(ctx context.Context, opts ...resource.ReadOptio
 				ChangeTime: wr.WasteCreateTime,
 				Type:       types.ChangeType_ADD,
 			}
-			send <- change
+			select {
+			case <-ctx.Done():
+				return // the subscriber is gone, nobody will take the change
+			case send <- change:
+			}
 		}
 	}()
 
